@@ -85,6 +85,8 @@ def main(tier, seed):
         ends = {}
         for s, (p, rec, pre_clear), (so, se, rc), m in zip(scripts, metas, outs, model):
             rep.count("repl-sessions")
+            if unjudged(m):
+                rep.count("skipped-resource-limit"); continue
             if " " not in m:
                 rep.violation("correspondence", {"what": "model driver gave no transcript (%s)" % m, "script": s})
                 continue
